@@ -33,6 +33,7 @@ PAIR = param("pair", 0)
 N = param("N", 3)
 FIRST = param("first", None)
 TOLERATE = param("tolerate", [])
+PREFIX = param("prefix", [])       # fixed leading words; the N symbolic tokens follow them
 ALPHA = soup.ALPHA
 EXPR = capture.capture(LANG)[PAIR][0]
 matcher.expression_to_nfa = untraced(matcher.expression_to_nfa)
@@ -190,9 +191,12 @@ def _pre(ks):
 
 def _toks(ks):
     out = []
+    for w in PREFIX:
+        typ, val = next((t, v) for t, v in ALPHA if v == w)
+        out.append(Token(Location(1, 1 + 10 * len(out)), typ, val))
     for i in range(N):
         typ, val = ALPHA[ks[i]]
-        out.append(Token(Location(1, 1 + 10 * i), typ, val))
+        out.append(Token(Location(1, 1 + 10 * len(out)), typ, val))
     return out
 
 
